@@ -325,3 +325,15 @@ def show(f) -> str:
     if f[0] == 'not':
         return f'not ({show(f[1])})'
     return '(' + (f' {f[0]} '.join(show(g) for g in f[1])) + ')'
+
+
+def map_atoms(f, fn):
+    """Rebuild a formula with every atom `a` replaced by fn(a) (a formula) when fn returns one."""
+    if f[0] == 'atom':
+        r = fn(f[1])
+        return r if r is not None else f
+    if f[0] == 'not':
+        return ('not', map_atoms(f[1], fn))
+    if f[0] in ('and', 'or'):
+        return (f[0], [map_atoms(g, fn) for g in f[1]])
+    return f
